@@ -105,7 +105,7 @@ def reappendedByRecovery (l : List Tok) (id : Nat) : Bool :=
     | _ => false
 
 def judge (l : List Tok) : String :=
-  if l.any (fun | .hang _ => true | _ => false) then "viol:future-never-completed"
+  if l.any (fun | .hang _ => true | .res _ _ 5 _ _ => true | _ => false) then "viol:future-never-completed"
   else if !(persistedTwice l).isEmpty then
     -- one logical send stored twice.  Known (narrow): an item WITHOUT a client message number whose
     -- first append was durable but reported ErrAppendFailed is re-appended by idempotency recovery.
